@@ -1,6 +1,7 @@
 //! E2 `pipesim`: byte-stream components (noise, mux, rpc) over `SimPipe`s.
 pub mod mux;
 pub mod noise;
+pub mod rpc;
 
 use std::rc::Rc;
 
@@ -31,6 +32,7 @@ pub fn run_case(mode: &str, seed: u64, keep_log: bool) -> (CaseResult, Vec<Strin
     let (mut res, log) = match mode {
         "noise" => one(seed, |s| noise::run_benign(seed, s, keep_log)),
         "mux" => one(seed, |s| mux::run(seed, s, keep_log)),
+        "rpc" => one(seed, |s| rpc::run(seed, s, keep_log)),
         "noise-tamper" => {
             // Fault enumeration: every (transport frame x tamper kind) of the base run `seed`.
             let mut frames = 1usize;
